@@ -29,40 +29,40 @@ type Options struct {
 }
 
 type Node struct {
-	ID   string
-	cl   *Cluster
-	mu   sync.Mutex // life-cycle
-	Cur  *shim.Inc
-	Raft *raft.Raft
-	FSM  *shim.FSM
-	Dir  string // directory holding the node's disk state (image while down)
-	incN int
-	Up   bool
-	smu  sync.Mutex // serialises samples of this node
+	ID          string
+	cl          *Cluster
+	mu          sync.Mutex // life-cycle
+	Cur         *shim.Inc
+	Raft        *raft.Raft
+	FSM         *shim.FSM
+	Dir         string // directory holding the node's disk state (image while down)
+	incN        int
+	Up          bool
+	smu         sync.Mutex // serialises samples of this node
 	stopSampler chan struct{}
-	Crashes int
-	LastCrash string
-	StartErr  string
+	Crashes     int
+	LastCrash   string
+	StartErr    string
 }
 
 type Cluster struct {
-	M     *mon.Monitor
-	Net   *simnet.Net
-	Root  string
-	Opts  Options
-	Nodes map[string]*Node
-	order []string
-	mu    sync.Mutex
-	Rng   *rand.Rand
-	rngMu sync.Mutex
-	dirN  int64
+	M       *mon.Monitor
+	Net     *simnet.Net
+	Root    string
+	Opts    Options
+	Nodes   map[string]*Node
+	order   []string
+	mu      sync.Mutex
+	Rng     *rand.Rand
+	rngMu   sync.Mutex
+	dirN    int64
 	zombies sync.WaitGroup
 
-	loggers sync.Map // *logging.Logger -> *shim.Inc
-	leaseCh   chan mon.Event
-	FatalSeen atomic.Int32
+	loggers    sync.Map // *logging.Logger -> *shim.Inc
+	leaseCh    chan mon.Event
+	FatalSeen  atomic.Int32
 	StallMaxNs atomic.Int64
-	stopStall chan struct{}
+	stopStall  chan struct{}
 }
 
 var fatalOnce sync.Once
@@ -588,7 +588,11 @@ func (c *Cluster) UpIDs() []string {
 
 // Bounce stops the node gracefully and restarts the SAME Raft object in-process (Stop + Restart), keeping
 // the incarnation, its storages and its state machine.
-func (n *Node) Bounce() error {
+func (n *Node) Bounce() error { return n.BounceAfter(0) }
+
+// BounceAfter is Bounce with a pause between Stop() and Restart(): handlers that were running with the lock
+// released when Stop() was called finish while the node is stopped.
+func (n *Node) BounceAfter(pause time.Duration) error {
 	n.mu.Lock()
 	defer n.mu.Unlock()
 	if !n.Up {
@@ -598,6 +602,9 @@ func (n *Node) Bounce() error {
 	n.smu.Lock() // no sample may straddle the restart
 	n.Raft.Stop()
 	n.cl.M.Emit(mon.Event{Kind: mon.KNodeBounce, Node: n.ID, Inc: n.incN})
+	if pause > 0 {
+		time.Sleep(pause)
+	}
 	err := n.Raft.Restart()
 	n.smu.Unlock()
 	es := ""
